@@ -36,6 +36,9 @@ class Service(object):
 def make_ae(scp_mask, ts_bits):
     ae = object.__new__(applicationentity.AE)
     applicationentity.AEBase.__init__(ae, [t for t, b in zip(TSU, ts_bits) if b], 16384)
+    # the entity's own configured title differs from the title it is called by (legal: the default
+    # on_association_request does not screen called titles): the reply must repeat the REQUEST's titles
+    ae.local_ae = {'address': 'here', 'port': 104, 'aet': 'CONFIGURED_AET'}
     svcs = [Service('A', [ABS[0]]), Service('B', [ABS[1]])]
     # C (and B) are configured for the *user* role only: being known as SCU must not make a class served
     ae.add_scu(Service('scuC', [ABS[2], ABS[1]]))
@@ -193,6 +196,36 @@ def accept_many(n: int, a0: int, a1: int, a2: int, s0: bool, s1: bool) -> bool:
     for which in range(n):
         ok = ok and check_dispatch(ae, rq, svcs, ctxs, served, supported, which)
     deep(ok and n == 3 and (n_acc == 2 or fam('scp') == 0))
+    return ok
+
+
+@cond(bounds='a full house: n = 120..128 proposed contexts (symbolic; 128 = every odd id 1..255, the legal maximum) for '
+             'served and unserved classes alternating, ids ascending or descending (symbolic): one answer per context, '
+             'same ids, same order, accepted iff served; the last context is served like the first', timeout=240)
+def accept_full_house(n: int, desc: bool, s0: bool) -> bool:
+    """
+    pre: 120 <= n <= 128
+    post: _
+    """
+    from vt import sim
+    n = pick(n, 120, 128)
+    desc, s0 = bool(pick(int(desc), 0, 1)), bool(pick(int(s0), 0, 1))
+    with sim._no_tracing():
+        bits = (s0, True, False, False)
+        ae, svcs = make_ae(1, bits)
+        ids = [2 * i + 1 for i in range(n)]
+        if desc:
+            ids.reverse()
+        ctxs = [(cid, ABS[(cid // 2) % 3], [TSU[1]]) for cid in ids]
+        rq = build_request(ctxs)
+        acc, err = serve(ae, rq, [])
+        served = [ABS[0]]
+        supported = [t for t, b in zip(TSU, bits) if b]
+        ok = err is None and check_reply(acc, rq, ctxs, served, supported)
+        last_served = [i for i, c in enumerate(ctxs) if c[1] == ABS[0]][-1]
+        ok = ok and check_dispatch(ae, rq, svcs, ctxs, served, supported, last_served)
+        ok = ok and check_dispatch(ae, rq, svcs, ctxs, served, supported, len(ctxs) - 1)
+    deep(ok and n == 128)
     return ok
 
 
